@@ -5,5 +5,5 @@ for f in sorted(glob.glob('/verif/seeded/%s-*/meta.json'%pid)):
     m=json.load(open(f)); prev.append('- '+m['needs_to_manifest'])
 variant=("ROUND THEME: earlier rounds already produced the changes listed below for this property. Yours must use a DIFFERENT mechanism, in a DIFFERENT function or code path where possible, and must need a different kind of trigger. Already used (do not repeat or vary these):\n"+'\n'.join(prev)+"\nLook for code paths the list never touches (other branches, other modes, other configuration values, helper functions the anchored code calls).")
 out=subprocess.run(['/venv/bin/python','/verif/tools/agent_prompt.py',pid,wt,variant],capture_output=True,text=True).stdout
-out=out.replace("(check both: `git stash` / `git stash pop` or `git diff > /tmp/x.patch; git checkout -- jesse; ...`)","(check both with: `git diff -- jesse > /tmp/seed8_%s.patch; git checkout -- jesse; run; git apply the patch again` - do NOT use git stash, the stash is shared between worktrees)"%pid)
+out=out.replace("(check both: `git stash` / `git stash pop` or `git diff > /tmp/x.patch; git checkout -- jesse; ...`)","(check both with: `git diff -- jesse > /tmp/seed9_%s.patch; git checkout -- jesse; run; git apply the patch again` - do NOT use git stash, the stash is shared between worktrees)"%pid)
 print(out)
